@@ -3,6 +3,7 @@ package main
 // Calls: builtins, modelled library functions, contracts, inlining, interface dispatch, havoc.
 
 import (
+	"regexp"
 	"sort"
 	"fmt"
 	"go/ast"
@@ -169,8 +170,17 @@ func (vc *VC) evalBuiltin(st *State, name string, c *ast.CallExpr) []Val {
 			}
 			return one(vc.newMap(st, t))
 		case *types.Chan:
-			vc.concurrency(c.Pos(), "make chan")
-			return one(vc.havocVal(st, t, "chan"))
+			// creating a channel is not yet concurrency: the value is a fresh channel with the given capacity (ghost chcap)
+			ch := vc.havocVal(st, t, "chan")
+			vc.declareFun("chcap", []string{"Int"}, "Int")
+			cp := "0"
+			if len(c.Args) > 1 {
+				n := vc.eval(st, c.Args[1])
+				vc.emit(st, "bounds", vc.fn.Key+"/bounds", vc.site("bounds"), fmt.Sprintf("(<= 0 %s)", n.S), c.Pos(), "make chan: size >= 0")
+				cp = n.S
+			}
+			vc.assume(st, fmt.Sprintf("(and (not (= %s 0)) (= (chcap %s) %s))", ch.S, ch.S, cp))
+			return one(ch)
 		}
 	case "new":
 		t := vc.typeOf(c)
@@ -597,6 +607,19 @@ func (vc *VC) callStaticVals(st *State, o *types.Func, recv *Val, args []ast.Exp
 		}
 	}
 	sig := o.Type().(*types.Signature)
+	if o.Pkg() != nil && o.Pkg().Path() == "sync" && sig.Recv() != nil {
+		// synchronisation primitives (WaitGroup, Mutex, Once, Cond ...) belong to the concurrent phase: cut here. sync.Pool has
+		// (assumed) sequential contracts and is not a cut.
+		rt := sig.Recv().Type()
+		if pt, ok := rt.(*types.Pointer); ok {
+			rt = pt.Elem()
+		}
+		if n, ok := types.Unalias(rt).(*types.Named); ok && n.Obj().Name() != "Pool" {
+			vc.cutState = st
+			vc.concurrency(c.Pos(), "sync."+n.Obj().Name()+"."+o.Name())
+			return vc.havocResultsSig(st, sig, vc.callResultTypes(c, sig))
+		}
+	}
 	vc.outParams = nil
 	argv := vc.evalArgs(st, sig, args, c)
 	outs := vc.outParams
@@ -1086,6 +1109,7 @@ func (vc *VC) applyContract(st *State, ct *Contract, o *types.Func, sig *types.S
 	if ct.Trusted {
 		vc.assumedContracts[ct.Key] = true
 	}
+	vc.calledContracts[ct.Key] = true
 	env := vc.bindContractEnv(ct, sig, recv, argv)
 	vc.callOrd[ct.Key]++
 	site := fmt.Sprintf("%d", vc.callOrd[ct.Key])
@@ -1125,11 +1149,73 @@ func (vc *VC) applyContract(st *State, ct *Contract, o *types.Func, sig *types.S
 		vc.assume(st, t)
 	}
 	for _, gd := range ct.GhostDefs {
+		if !vc.ghostDefRelevant(gd) {
+			continue // defines only ghost state that the function under verification never mentions: dropping it is sound
+		}
 		t := vc.specBool(st, pre, gd.Expr, nil, env)
 		vc.assume(st, t)
 		vc.noteAssumption(fmt.Sprintf("ghost definition at %s: %s", ct.Key, gd.Src))
 	}
 	return out
+}
+
+var identRe = regexp.MustCompile(`[A-Za-z_][A-Za-z0-9_]*`)
+
+// contractMentions: identifiers occurring in the clauses of the contract under verification, closed under pred definitions
+func (vc *VC) contractMentions() map[string]bool {
+	if vc.mentions != nil {
+		return vc.mentions
+	}
+	m := map[string]bool{}
+	var add func(src string)
+	add = func(src string) {
+		for _, id := range identRe.FindAllString(src, -1) {
+			if m[id] {
+				continue
+			}
+			m[id] = true
+			if p, ok := vc.eng.specs.Preds[id]; ok {
+				add(p.Src)
+			}
+		}
+	}
+	ct := vc.contract
+	if ct != nil {
+		lists := [][]*Clause{ct.Requires, ct.Ensures, ct.Exits, ct.AtCuts, ct.Assumes, ct.GhostDefs}
+		for _, b := range ct.Befores {
+			lists = append(lists, b)
+		}
+		for _, l := range ct.Loops {
+			lists = append(lists, l.Invariants)
+		}
+		for _, r := range ct.Recvs {
+			lists = append(lists, r)
+		}
+		for _, l := range lists {
+			for _, cl := range l {
+				add(cl.Src)
+			}
+		}
+	}
+	vc.mentions = m
+	return m
+}
+
+func (vc *VC) ghostDefRelevant(gd *Clause) bool {
+	if vc.contract == nil {
+		return true
+	}
+	m := vc.contractMentions()
+	any := false
+	for _, id := range identRe.FindAllString(gd.Src, -1) {
+		if g, ok := vc.eng.specs.Ghosts[id]; ok && !strings.HasPrefix(g.Type, "fn(") {
+			any = true
+			if m[id] {
+				return true
+			}
+		}
+	}
+	return !any
 }
 
 // applyFrame havocs what the callee may modify
